@@ -1,1 +1,631 @@
-// Correspondence suites for property C09. Each suite is a #[test] fn named verif_c09_<suite>.
+// Correspondence suites for property C09 (wire encodings round-trip and reject every non-canonical
+// byte string; bit-matrix transposition / field packing are lossless inverses).
+// Each suite is a #[test] fn named verif_c09_<suite>.
+//
+// Request grammar of the serde suites (c09_small, c09_large):
+//   c09.blk <Ty> <suffix-hex|->   decode [b] ++ suffix for every b in 0..=255 (256 verdicts, run-length compressed)
+//   c09.de  <Ty> <hex>            deserialize; `ok <leaves> <re-encoded hex>` | `err`
+//   c09.en  <Ty> <leaves>         build the value from its leaves (hex, ':'-separated) and serialize
+//   c09.rp  de <hex>              RP25519::deserialize; `ok <re-encoded hex>` | `err`
+// <Ty> is a leaf type name, `share:<Leaf>` (AdditiveShare) or `arrN:<Leaf>` (StdArray<_, N>).
+use curve25519_dalek::scalar::Scalar;
+use generic_array::GenericArray;
+use typenum::Unsigned;
+
+use super::proto::*;
+use crate::{
+    ff::{
+        ArrayAccess, Fp31, Fp32BitPrime, Fp61BitPrime, Gf2, Gf3Bit, Gf8Bit, Gf9Bit, Gf20Bit,
+        Gf32Bit, Gf40Bit, PrimeField, Serializable, U128Conversions,
+        boolean::Boolean,
+        boolean_array::{
+            BA3, BA4, BA5, BA6, BA7, BA8, BA16, BA20, BA32, BA64, BA96, BA112, BA144, BA256,
+        },
+        curve_points::RP25519,
+        ec_prime_field::Fp25519,
+    },
+    secret_sharing::{
+        SharedValue, StdArray, Vectorizable,
+        replicated::{ReplicatedSecretSharing, semi_honest::AdditiveShare},
+    },
+};
+
+// ------------------------------------------------------------------------------------------------
+// values <-> leaves
+
+/// A wire type of the serde suites: observable as a list of leaves (hex integers), constructible
+/// from them *without* going through `deserialize`.
+trait Wire: Serializable + Sized {
+    fn leaves(&self, out: &mut Vec<String>);
+    fn build(it: &mut dyn Iterator<Item = &str>) -> Self;
+}
+
+macro_rules! wire_u128 {
+    ($($t:ty),*) => {$(
+        impl Wire for $t {
+            fn leaves(&self, out: &mut Vec<String>) {
+                out.push(format!("{:x}", self.as_u128()));
+            }
+            fn build(it: &mut dyn Iterator<Item = &str>) -> Self {
+                <$t>::truncate_from(u128::from_str_radix(it.next().unwrap(), 16).unwrap())
+            }
+        }
+    )*};
+}
+wire_u128!(
+    Fp31, Fp32BitPrime, Fp61BitPrime, Gf2, Gf3Bit, Gf8Bit, Gf9Bit, Gf20Bit, Gf32Bit, Gf40Bit, BA3,
+    BA4, BA5, BA6, BA7, BA8, BA16, BA20, BA32, BA64, BA96, BA112
+);
+
+impl Wire for Boolean {
+    fn leaves(&self, out: &mut Vec<String>) {
+        out.push(format!("{:x}", self.as_u128()));
+    }
+    fn build(it: &mut dyn Iterator<Item = &str>) -> Self {
+        Boolean::from(u128::from_str_radix(it.next().unwrap(), 16).unwrap() != 0)
+    }
+}
+
+/// big-endian hex digits -> little-endian bits
+fn hex_to_bits(s: &str, n: usize) -> Vec<bool> {
+    let mut bits = Vec::with_capacity(n);
+    for c in s.chars().rev() {
+        let d = c.to_digit(16).unwrap();
+        for k in 0..4 {
+            bits.push((d >> k) & 1 == 1);
+        }
+    }
+    assert!(bits.iter().skip(n).all(|b| !b), "harness: leaf does not fit {n} bits");
+    bits.resize(n, false);
+    bits
+}
+
+/// little-endian bits -> big-endian hex digits without leading zeros
+fn bits_to_hex(bits: &[bool]) -> String {
+    let mut digits = Vec::new();
+    for chunk in bits.chunks(4) {
+        let mut d = 0u32;
+        for (k, b) in chunk.iter().enumerate() {
+            d |= u32::from(*b) << k;
+        }
+        digits.push(std::char::from_digit(d, 16).unwrap());
+    }
+    while digits.len() > 1 && *digits.last().unwrap() == '0' {
+        digits.pop();
+    }
+    digits.iter().rev().collect()
+}
+
+macro_rules! wire_bigba {
+    ($($t:ty),*) => {$(
+        impl Wire for $t {
+            fn leaves(&self, out: &mut Vec<String>) {
+                let n = <$t as SharedValue>::BITS as usize;
+                let bits: Vec<bool> = (0..n).map(|i| bool::from(self.get(i).unwrap())).collect();
+                out.push(bits_to_hex(&bits));
+            }
+            fn build(it: &mut dyn Iterator<Item = &str>) -> Self {
+                let n = <$t as SharedValue>::BITS as usize;
+                hex_to_bits(it.next().unwrap(), n).into_iter().map(Boolean::from).collect()
+            }
+        }
+    )*};
+}
+wire_bigba!(BA144, BA256);
+
+impl Wire for Fp25519 {
+    fn leaves(&self, out: &mut Vec<String>) {
+        let bytes = Scalar::from(*self).to_bytes();
+        let bits: Vec<bool> = (0..256).map(|i| (bytes[i / 8] >> (i % 8)) & 1 == 1).collect();
+        out.push(bits_to_hex(&bits));
+    }
+    fn build(it: &mut dyn Iterator<Item = &str>) -> Self {
+        // by arithmetic: sum of 64-bit limbs times powers of 2^64
+        let bits = hex_to_bits(it.next().unwrap(), 256);
+        let base = Fp25519::from(Scalar::from(u64::MAX)) + Fp25519::ONE;
+        let mut acc = Fp25519::ZERO;
+        for limb in (0..4).rev() {
+            let mut v = 0u64;
+            for k in 0..64 {
+                v |= u64::from(bits[64 * limb + k]) << k;
+            }
+            acc = acc * base + Fp25519::from(Scalar::from(v));
+        }
+        acc
+    }
+}
+
+impl<V: Wire + SharedValue + Vectorizable<1>> Wire for AdditiveShare<V>
+where
+    AdditiveShare<V>: Serializable,
+{
+    fn leaves(&self, out: &mut Vec<String>) {
+        self.left().leaves(out);
+        self.right().leaves(out);
+    }
+    fn build(it: &mut dyn Iterator<Item = &str>) -> Self {
+        let l = V::build(it);
+        let r = V::build(it);
+        AdditiveShare::new(l, r)
+    }
+}
+
+impl<V: Wire + SharedValue, const N: usize> Wire for StdArray<V, N>
+where
+    StdArray<V, N>: Serializable,
+{
+    fn leaves(&self, out: &mut Vec<String>) {
+        for v in self.clone() {
+            v.leaves(out);
+        }
+    }
+    fn build(it: &mut dyn Iterator<Item = &str>) -> Self {
+        let v: Vec<V> = (0..N).map(|_| V::build(it)).collect();
+        StdArray::try_from(v).ok().unwrap()
+    }
+}
+
+// ------------------------------------------------------------------------------------------------
+// executors
+
+fn decode_entry<T: Wire>(bytes: &[u8]) -> Result<(String, Vec<u8>), ()> {
+    let mut buf = GenericArray::<u8, T::Size>::default();
+    assert_eq!(bytes.len(), buf.len(), "harness: wrong buffer length");
+    buf.copy_from_slice(bytes);
+    match T::deserialize(&buf) {
+        Ok(v) => {
+            let mut ls = vec![];
+            v.leaves(&mut ls);
+            let mut re = GenericArray::<u8, T::Size>::default();
+            v.serialize(&mut re);
+            Ok((ls.join(":"), re.to_vec()))
+        }
+        Err(_) => Err(()),
+    }
+}
+
+fn rle(entries: &[String]) -> String {
+    let mut out: Vec<String> = vec![];
+    let mut i = 0;
+    while i < entries.len() {
+        let mut j = i;
+        while j < entries.len() && entries[j] == entries[i] {
+            j += 1;
+        }
+        if j - i == 1 {
+            out.push(entries[i].clone());
+        } else {
+            out.push(format!("{}*{}", entries[i], j - i));
+        }
+        i = j;
+    }
+    out.join(",")
+}
+
+fn run<T: Wire>(op: &str, args: &[&str]) -> String {
+    match op {
+        "c09.blk" => {
+            let suffix = unhex(args[0]);
+            let mut entries = Vec::with_capacity(256);
+            for b in 0..=255u8 {
+                let mut bytes = vec![b];
+                bytes.extend_from_slice(&suffix);
+                entries.push(match decode_entry::<T>(&bytes) {
+                    Ok((ls, re)) => {
+                        if re == bytes {
+                            ls
+                        } else {
+                            format!("{ls}!")
+                        }
+                    }
+                    Err(()) => "e".into(),
+                });
+            }
+            rle(&entries)
+        }
+        "c09.de" => match decode_entry::<T>(&unhex(args[0])) {
+            Ok((ls, re)) => format!("ok {ls} {}", hex(&re)),
+            Err(()) => "err".into(),
+        },
+        "c09.en" => {
+            let mut it = args[0].split(':');
+            let v = T::build(&mut it);
+            assert!(it.next().is_none(), "harness: too many leaves");
+            let mut buf = GenericArray::<u8, T::Size>::default();
+            v.serialize(&mut buf);
+            hex(&buf)
+        }
+        _ => panic!("harness: unknown op {op}"),
+    }
+}
+
+/// (name, bytes, bound bits or 0 for "see prime") of every leaf type
+macro_rules! for_leaves {
+    ($mac:ident ! ( $($pre:tt)* )) => {
+        $mac!($($pre)* Fp31, Fp32BitPrime, Fp61BitPrime, Boolean, Gf2, Gf3Bit, Gf8Bit, Gf9Bit, Gf20Bit,
+              Gf32Bit, Gf40Bit, BA3, BA4, BA5, BA6, BA7, BA8, BA16, BA20, BA32, BA64, BA96, BA112, BA144,
+              BA256, Fp25519)
+    };
+}
+
+macro_rules! dispatch_leaf {
+    ($leaf:expr, $op:expr, $args:expr, $wrap:ident; $($t:ident),*) => {
+        match $leaf {
+            $(stringify!($t) => run::<$wrap!($t)>($op, $args),)*
+            other => panic!("harness: unknown leaf type {other}"),
+        }
+    };
+}
+macro_rules! w_id { ($t:ty) => { $t }; }
+macro_rules! w_share { ($t:ty) => { AdditiveShare<$t> }; }
+macro_rules! w_arr1 { ($t:ty) => { StdArray<$t, 1> }; }
+macro_rules! w_arr16 { ($t:ty) => { StdArray<$t, 16> }; }
+macro_rules! w_arr32 { ($t:ty) => { StdArray<$t, 32> }; }
+macro_rules! w_arr64 { ($t:ty) => { StdArray<$t, 64> }; }
+macro_rules! w_arr256 { ($t:ty) => { StdArray<$t, 256> }; }
+
+fn exec_serde(op: &str, ty: &str, args: &[&str]) -> String {
+    let (wrap, leaf) = match ty.split_once(':') {
+        Some((w, l)) => (w, l),
+        None => ("", ty),
+    };
+    match wrap {
+        "" => for_leaves!(dispatch_leaf!(leaf, op, args, w_id;)),
+        "share" => for_leaves!(dispatch_leaf!(leaf, op, args, w_share;)),
+        "arr1" => for_leaves!(dispatch_leaf!(leaf, op, args, w_arr1;)),
+        "arr16" => for_leaves!(dispatch_leaf!(leaf, op, args, w_arr16;)),
+        "arr32" => for_leaves!(dispatch_leaf!(leaf, op, args, w_arr32;)),
+        "arr64" => for_leaves!(dispatch_leaf!(leaf, op, args, w_arr64;)),
+        "arr256" => for_leaves!(dispatch_leaf!(leaf, op, args, w_arr256;)),
+        other => panic!("harness: unknown wrapper {other}"),
+    }
+}
+
+fn exec_rp(op: &str, args: &[&str]) -> String {
+    match op {
+        "de" => {
+            let b = unhex(args[0]);
+            let mut buf = GenericArray::<u8, <RP25519 as Serializable>::Size>::default();
+            buf.copy_from_slice(&b);
+            match RP25519::deserialize(&buf) {
+                Ok(p) => {
+                    let mut re = GenericArray::<u8, <RP25519 as Serializable>::Size>::default();
+                    p.serialize(&mut re);
+                    format!("ok {}", hex(&re))
+                }
+                Err(_) => "err".into(),
+            }
+        }
+        _ => panic!("harness: unknown op {op}"),
+    }
+}
+
+pub fn exec(req: &str) -> String {
+    let t: Vec<&str> = req.split(' ').collect();
+    match t[0] {
+        "c09.blk" | "c09.de" | "c09.en" => exec_serde(t[0], t[1], &t[2..]),
+        "c09.rp" => exec_rp(t[1], &t[2..]),
+        _ => panic!("harness: unknown request {req}"),
+    }
+}
+
+// ------------------------------------------------------------------------------------------------
+// generators
+
+#[derive(Clone, Copy)]
+struct LeafInfo {
+    name: &'static str,
+    bytes: usize,
+    /// exclusive bound of the canonical little-endian integer, as little-endian bytes (33 bytes)
+    bound: [u8; 33],
+}
+
+fn bound_pow2(bits: usize) -> [u8; 33] {
+    let mut b = [0u8; 33];
+    b[bits / 8] = 1 << (bits % 8);
+    b
+}
+
+fn bound_u128(p: u128) -> [u8; 33] {
+    let mut b = [0u8; 33];
+    b[..16].copy_from_slice(&p.to_le_bytes());
+    b
+}
+
+/// group order of ed25519 / Ristretto, little-endian
+const ELL: [u8; 32] = [
+    0xed, 0xd3, 0xf5, 0x5c, 0x1a, 0x63, 0x12, 0x58, 0xd6, 0x9c, 0xf7, 0xa2, 0xde, 0xf9, 0xde, 0x14,
+    0, 0, 0, 0, 0, 0, 0, 0, 0, 0, 0, 0, 0, 0, 0, 0x10,
+];
+
+fn leaf_infos() -> Vec<LeafInfo> {
+    fn size<T: Serializable>() -> usize {
+        T::Size::USIZE
+    }
+    let mut v = vec![
+        LeafInfo { name: "Fp31", bytes: size::<Fp31>(), bound: bound_u128(u128::from(Fp31::PRIME)) },
+        LeafInfo { name: "Fp32BitPrime", bytes: size::<Fp32BitPrime>(), bound: bound_u128(u128::from(Fp32BitPrime::PRIME)) },
+        LeafInfo { name: "Fp61BitPrime", bytes: size::<Fp61BitPrime>(), bound: bound_u128(u128::from(Fp61BitPrime::PRIME)) },
+        LeafInfo { name: "Boolean", bytes: size::<Boolean>(), bound: bound_u128(2) },
+    ];
+    macro_rules! bits_leaf {
+        ($($t:ident),*) => {$(
+            v.push(LeafInfo { name: stringify!($t), bytes: size::<$t>(), bound: bound_pow2(<$t as SharedValue>::BITS as usize) });
+        )*};
+    }
+    bits_leaf!(Gf2, Gf3Bit, Gf8Bit, Gf9Bit, Gf20Bit, Gf32Bit, Gf40Bit, BA3, BA4, BA5, BA6, BA7, BA8, BA16, BA20, BA32, BA64, BA96, BA112, BA144, BA256);
+    let mut ell = [0u8; 33];
+    ell[..32].copy_from_slice(&ELL);
+    v.push(LeafInfo { name: "Fp25519", bytes: 32, bound: ell });
+    v
+}
+
+/// little-endian comparison a < b
+fn le_lt(a: &[u8], b: &[u8]) -> bool {
+    let n = a.len().max(b.len());
+    for i in (0..n).rev() {
+        let x = a.get(i).copied().unwrap_or(0);
+        let y = b.get(i).copied().unwrap_or(0);
+        if x != y {
+            return x < y;
+        }
+    }
+    false
+}
+
+/// little-endian a - k (k small), a + k
+fn le_add(a: &[u8], k: i32, n: usize) -> Vec<u8> {
+    let mut out = vec![0u8; n];
+    let mut carry = i64::from(k);
+    for i in 0..n {
+        let x = i64::from(a.get(i).copied().unwrap_or(0)) + carry;
+        out[i] = x.rem_euclid(256) as u8;
+        carry = x.div_euclid(256);
+    }
+    out
+}
+
+fn le_to_hexint(bytes: &[u8]) -> String {
+    let bits: Vec<bool> = (0..bytes.len() * 8).map(|i| (bytes[i / 8] >> (i % 8)) & 1 == 1).collect();
+    bits_to_hex(&bits)
+}
+
+/// encodings around the canonical range of one leaf: 0, 1, bound-1 (canonical); bound, bound+1, all-ones,
+/// single padding bits (non-canonical where representable); random canonical and random raw patterns.
+fn leaf_patterns(rng: &mut Rng, li: &LeafInfo, nrand: usize) -> (Vec<Vec<u8>>, Vec<Vec<u8>>) {
+    let n = li.bytes;
+    let mut canon: Vec<Vec<u8>> = vec![vec![0; n], le_add(&[], 1, n), le_add(&li.bound, -1, n), le_add(&li.bound, -2, n)];
+    let mut raw: Vec<Vec<u8>> = vec![];
+    // bound, bound+1 when they fit in n bytes
+    if li.bound[n..].iter().all(|b| *b == 0) {
+        raw.push(le_add(&li.bound, 0, n));
+        raw.push(le_add(&li.bound, 1, n));
+    }
+    raw.push(vec![0xff; n]);
+    for bit in 0..n * 8 {
+        let mut b = vec![0u8; n];
+        b[bit / 8] |= 1 << (bit % 8);
+        raw.push(b.clone());
+        // the same bit on top of bound-1
+        let mut c = le_add(&li.bound, -1, n);
+        c[bit / 8] ^= 1 << (bit % 8);
+        raw.push(c);
+    }
+    for _ in 0..nrand {
+        let r = rng.bytes(n);
+        raw.push(r.clone());
+        // a random canonical value: clear high bits until below the bound
+        let mut c = r;
+        let mut top = n * 8;
+        while !le_lt(&c, &li.bound) {
+            top -= 1;
+            c[top / 8] &= !(1 << (top % 8));
+        }
+        canon.push(c);
+    }
+    canon.retain(|c| le_lt(c, &li.bound));
+    (canon, raw)
+}
+
+fn gen_small(_rng: &mut Rng, thorough: bool) -> Vec<String> {
+    let mut out = vec![];
+    let infos = leaf_infos();
+    // every type of <= 2 bytes: ALL byte strings
+    for li in &infos {
+        match li.bytes {
+            1 => {
+                out.push(format!("c09.blk {} -", li.name));
+                out.push(format!("c09.blk arr1:{} -", li.name));
+                for hi in 0..=255u8 {
+                    out.push(format!("c09.blk share:{} {}", li.name, hex(&[hi])));
+                }
+            }
+            2 => {
+                for hi in 0..=255u8 {
+                    out.push(format!("c09.blk {} {}", li.name, hex(&[hi])));
+                }
+            }
+            3 => {
+                // the 20-bit types: all 2^24 in the thorough tier; in the quick tier every value of the top
+                // byte with the middle byte in {00, 01, 7f, 80, ff}, and every middle byte with top byte 00/0f/10
+                if thorough {
+                    for top in 0..=255u8 {
+                        for mid in 0..=255u8 {
+                            out.push(format!("c09.blk {} {}", li.name, hex(&[mid, top])));
+                        }
+                    }
+                } else {
+                    for top in 0..=255u8 {
+                        for mid in [0x00u8, 0x01, 0x7f, 0x80, 0xff] {
+                            out.push(format!("c09.blk {} {}", li.name, hex(&[mid, top])));
+                        }
+                    }
+                    for mid in 0..=255u8 {
+                        for top in [0x00u8, 0x0f, 0x10] {
+                            out.push(format!("c09.blk {} {}", li.name, hex(&[mid, top])));
+                        }
+                    }
+                }
+            }
+            _ => {}
+        }
+    }
+    out
+}
+
+/// `c09.de` request; inputs of Fp25519 holding an element >= the group order carry the marker
+/// ` ge-order` (the class of known finding F9; computed here by plain comparison, ignored by `exec`).
+fn de_req(li: &LeafInfo, ty: &str, elems: &[&[u8]]) -> String {
+    let marker = if li.name == "Fp25519" && elems.iter().any(|e| !le_lt(e, &li.bound)) { " ge-order" } else { "" };
+    format!("c09.de {ty} {}{marker}", hex(&elems.concat()))
+}
+
+fn gen_large(rng: &mut Rng, thorough: bool) -> Vec<String> {
+    let mut out = vec![];
+    let infos = leaf_infos();
+    let nrand = if thorough { 200 } else { 12 };
+    for li in &infos {
+        let (canon, raw) = leaf_patterns(rng, li, nrand);
+        let share_ty = format!("share:{}", li.name);
+        // leaf itself
+        for c in &canon {
+            out.push(format!("c09.en {} {}", li.name, le_to_hexint(c)));
+            out.push(de_req(li, li.name, &[c]));
+            // every single-bit flip of a valid encoding
+            for bit in 0..li.bytes * 8 {
+                let mut f = c.clone();
+                f[bit / 8] ^= 1 << (bit % 8);
+                out.push(de_req(li, li.name, &[&f]));
+            }
+        }
+        for r in &raw {
+            out.push(de_req(li, li.name, &[r]));
+        }
+        // shares: every combination class (canonical/non-canonical) x (left/right)
+        let pick = |rng: &mut Rng, v: &Vec<Vec<u8>>| v[rng.usize_below(v.len())].clone();
+        let nshare = if thorough { 400 } else { 40 };
+        for k in 0..nshare {
+            let l = if k % 4 < 2 { pick(rng, &canon) } else { pick(rng, &raw) };
+            let r = if k % 2 == 0 { pick(rng, &canon) } else { pick(rng, &raw) };
+            out.push(de_req(li, &share_ty, &[&l, &r]));
+            if k % 4 == 0 {
+                out.push(format!("c09.en share:{} {}:{}", li.name, le_to_hexint(&l), le_to_hexint(&r)));
+            }
+        }
+        // boundary shares: (p-1, p-1), (p-1, p), (p, p-1)
+        let top = le_add(&li.bound, -1, li.bytes);
+        out.push(de_req(li, &share_ty, &[&top, &top]));
+        if li.bound[li.bytes..].iter().all(|b| *b == 0) {
+            let p = le_add(&li.bound, 0, li.bytes);
+            out.push(de_req(li, &share_ty, &[&top, &p]));
+            out.push(de_req(li, &share_ty, &[&p, &top]));
+        }
+        // arrays: all canonical; exactly one corrupt element at every position (N = 16) or at first / last /
+        // random positions (larger N)
+        for n in [1usize, 16, 32, 64, 256] {
+            if n * li.bytes > 2048 && !thorough {
+                continue;
+            }
+            let reps = if thorough { 6 } else { 2 };
+            for _ in 0..reps {
+                let elems: Vec<Vec<u8>> = (0..n).map(|_| pick(rng, &canon)).collect();
+                let arr_ty = format!("arr{n}:{}", li.name);
+                let refs = |v: &Vec<Vec<u8>>| -> String { de_req(li, &arr_ty, &v.iter().map(Vec::as_slice).collect::<Vec<_>>()) };
+                out.push(refs(&elems));
+                out.push(format!(
+                    "c09.en arr{n}:{} {}",
+                    li.name,
+                    elems.iter().map(|e| le_to_hexint(e)).collect::<Vec<_>>().join(":")
+                ));
+                let mut positions: Vec<usize> = if n <= 16 { (0..n).collect() } else { vec![0, 1, n / 2, n - 2, n - 1, rng.usize_below(n)] };
+                positions.dedup();
+                for pos in positions {
+                    let mut e2 = elems.clone();
+                    e2[pos] = pick(rng, &raw);
+                    out.push(refs(&e2));
+                }
+            }
+        }
+    }
+    gen_rp(rng, thorough, &mut out);
+    out
+}
+
+/// RP25519: valid encodings (multiples of the base point), every single-bit flip of some of them,
+/// field-level non-canonical integers (>= 2^255-19, high bit set), "negative" (odd) integers, random
+/// strings and the two-byte-prefix family [b0, b1, 0, …, 0].
+fn gen_rp(rng: &mut Rng, thorough: bool, out: &mut Vec<String>) {
+    let ser = |p: RP25519| -> Vec<u8> {
+        let mut buf = GenericArray::<u8, <RP25519 as Serializable>::Size>::default();
+        p.serialize(&mut buf);
+        buf.to_vec()
+    };
+    let push = |out: &mut Vec<String>, b: &[u8]| out.push(format!("c09.rp de {}", hex(b)));
+    push(out, &[0u8; 32]);
+    let mut valid: Vec<Vec<u8>> = vec![];
+    for k in 1..=16u64 {
+        valid.push(ser(RP25519::from(Fp25519::from(Scalar::from(k)))));
+    }
+    valid.push(ser(RP25519::from(-Fp25519::ONE)));
+    for _ in 0..(if thorough { 200 } else { 20 }) {
+        let mut it_s = [0u8; 32];
+        it_s.copy_from_slice(&rng.bytes(32));
+        valid.push(ser(RP25519::from(Fp25519::from(Scalar::from_bytes_mod_order(it_s)))));
+    }
+    for (i, v) in valid.iter().enumerate() {
+        push(out, v);
+        if i < (if thorough { 40 } else { 4 }) {
+            for bit in 0..256 {
+                let mut f = v.clone();
+                f[bit / 8] ^= 1 << (bit % 8);
+                push(out, &f);
+            }
+        }
+    }
+    // integers around the field prime 2^255 - 19 and with the unused top bit set
+    let mut pm = [0xffu8; 32];
+    pm[31] = 0x7f;
+    for delta in -40i32..=2 {
+        let mut b = le_add(&pm, 0, 32);
+        b[0] = (0xed_i32 + delta).rem_euclid(256) as u8; // 2^255-19 = ed ff … 7f
+        if 0xed + delta < 0 {
+            continue;
+        }
+        push(out, &b);
+    }
+    push(out, &[0xff; 32]);
+    for v in valid.iter().take(8) {
+        let mut f = v.clone();
+        f[31] |= 0x80;
+        push(out, &f);
+        f = v.clone();
+        f[0] |= 1; // "negative" s
+        push(out, &f);
+    }
+    for _ in 0..(if thorough { 2000 } else { 200 }) {
+        push(out, &rng.bytes(32));
+        let mut r = rng.bytes(32);
+        r[31] &= 0x7f;
+        r[0] &= 0xfe;
+        push(out, &r);
+    }
+    let (n0, n1) = if thorough { (256u32, 256u32) } else { (256, 4) };
+    for b1 in 0..n1 {
+        for b0 in 0..n0 {
+            let mut b = [0u8; 32];
+            b[0] = b0 as u8;
+            b[1] = if n1 == 256 { b1 as u8 } else { [0u8, 1, 0x80, 0xff][b1 as usize] };
+            push(out, &b);
+        }
+    }
+}
+
+#[test]
+fn verif_c09_small() {
+    run_suite("c09_small", gen_small, exec);
+}
+
+#[test]
+fn verif_c09_large() {
+    run_suite("c09_large", gen_large, exec);
+}
